@@ -13,7 +13,7 @@ import (
 // property -> harness file groups
 var groups = map[string][]string{
 	"C01": {"lb"}, "C02": {"lb"}, "C03": {"lb"}, "C16": {"lb", "rw"},
-	"C04": {"lb", "conn", "slot", "io"}, "C11": {"poll"}, "C18": {"mgr"}, "C17": {"c17"}, "C05": {"lb", "conn", "connsum"}, "C06": {"lb", "conn", "connsum"}, "C07": {"lb", "conn", "connsum"}, "C08": {"lb", "conn", "connsum"}, "C09": {"lb", "conn", "connsum"},
+	"C04": {"lb", "conn", "slot", "io"}, "C11": {"poll"}, "C18": {"mgr"}, "C17": {"muxc", "c17"}, "C05": {"lb", "conn", "connsum"}, "C06": {"lb", "conn", "connsum"}, "C07": {"lb", "conn", "connsum"}, "C08": {"lb", "conn", "connsum"}, "C09": {"lb", "conn", "connsum"},
 	"C12": {"lb", "conn", "closed"}, "C10": {"lb", "conn", "slot"}, "C15": {"lb", "conn", "fd"}, "C14": {"lb", "conn", "dial"}, "C13": {"lb", "conn", "server"}, "T00": {"po"}, "T01": {"po"}, "C19": {"lb", "conn", "connsum", "race"},
 }
 
